@@ -159,7 +159,7 @@ func c12BrkInterp(t *testing.T, c c12BrkCase) (v kit.Verdict) {
 		if time.Since(t0) > c12Stall {
 			cls["env:stalled-step"] = true
 			v.Excluded = true
-			c12Renew(t)
+			c12Renew(t, tw)
 			return v
 		}
 		if got == breaker.ErrServiceUnavailable {
@@ -400,7 +400,7 @@ func c12PerCmdInterp(t *testing.T, c c12PerCmdCase) (v kit.Verdict) {
 			cls["env:stalled-step"] = true
 			v.Excluded = true
 			v.Fail = ""
-			c12Renew(t)
+			c12Renew(t, tw)
 			return v
 		}
 	}
